@@ -230,6 +230,7 @@ const (
 	maxLoopTicks   = 1000000000    // loop duration in media timescale units (3 h at 90 kHz)
 	maxNowMS       = 8796093022208 // 2^43 ms (year 2248)
 	maxStartTimeS  = 8796093022    // availabilityStartTime (s)
+	maxWraps       = 8796093022208 // completed loops since availabilityStartTime (one per ms until maxNowMS)
 	phaseEarly     = 0
 	phaseOK        = 1
 	phaseGone      = 2
@@ -633,7 +634,7 @@ func lemmaInfiniteOffset(a *asset, rep *RepData, nr uint32, cfg *ResponseConfig,
 // wfWrapTimes: what calcWrapTimes guarantees, as needed by generateTimelineEntries.
 func wfWrapTimes(a *asset, wt wrapTimes) bool {
 	return 0 <= wt.startRelMS && wt.startRelMS < a.LoopDurMS && 0 <= wt.startWraps && 0 <= wt.nowRelMS && wt.nowRelMS < a.LoopDurMS && 0 <= wt.nowWraps &&
-		wt.startWraps*a.LoopDurMS+wt.startRelMS <= wt.nowWraps*a.LoopDurMS+wt.nowRelMS && wt.nowWraps <= 4000000
+		wt.startWraps*a.LoopDurMS+wt.startRelMS <= wt.nowWraps*a.LoopDurMS+wt.nowRelMS && wt.nowWraps <= maxWraps
 }
 
 // relTicks: a time inside the loop in ms, converted to media ticks the way the code does.
@@ -662,7 +663,11 @@ func nrListed(entries []*m.S, n int) int {
 //@   ensures  none: result.lsi.nr == -1 <==> result.startNr == -1
 //@   ensures  range: result.startNr >= 0 ==> result.startNr <= result.lsi.nr
 //@   ensures  first: result.startNr >= 0 ==> len(result.entries) >= 1 && result.entries[0] != nil && result.entries[0].T != nil
+//@   ensures  empty: result.startNr >= -1 && (result.startNr < 0 ==> len(result.entries) == 0)
+//@   ensures  runs: forall k in [0, len(result.entries)) :: result.entries[k] != nil && result.entries[k].R >= 0
 //@   allocates
+//@   loop 1 invariant forall k in [0, len(se.entries)) :: se.entries[k] != nil && se.entries[k].R >= 0 && fresh(se.entries[k])
+//@   loop 1 invariant len(se.entries) >= 1 && s == se.entries[len(se.entries)-1]
 //@   loop 1 invariant rep == a.Reps[repID] && nrSegs == len(rep.Segments) && segs == rep.Segments && se.startNr >= 0 && se.startNr < nr
 //@   loop 1 invariant lsi.nr == nr-1 || lsi.nr == se.startNr
 //@   loop 1 invariant lsi.nr >= se.startNr
@@ -973,9 +978,6 @@ func sumChunkDurs(chunks []chunk, n int) int {
 //@ func writeLiveSegment
 //@   wiring
 //@   loop 1 invariant true
-//@ func calcStatusCode
-//@   wiring
-//@   loop 1 invariant true
 //@ func writeInitSegment
 //@   wiring
 //@ func createAudioSegment
@@ -1156,6 +1158,7 @@ func encWanted(codec string) bool { return strHasPrefix(codec, "avc") || strHasP
 //@   requires forall k in [0, len(entries)) :: entries[k] != nil
 //@   ensures  forall k in [0, len(ret0)) :: ret0[k] != nil && ret0[k].T != nil
 //@   ensures  ret1 != nil
+//@   ensures  runsStartInsidePeriod: forall k in [0, len(ret0)) :: periodStartS * uint64(timescale) <= *ret0[k].T && *ret0[k].T < periodEndS * uint64(timescale)
 //@   exit 1 requires stopsOnlyAtPeriodEnd: t >= pEnd
 //@   allocates
 //@   loop 1 invariant pStart == periodStartS * uint64(timescale) && pEnd == periodEndS * uint64(timescale)
@@ -1163,12 +1166,52 @@ func encWanted(codec string) bool { return strHasPrefix(codec, "avc") || strHasP
 //@   loop 1 invariant forall k in [0, len(entries)) :: entries[k] != nil
 //@   loop 1 invariant currS != nil ==> len(newS) > 0 && newS[len(newS)-1] == currS
 //@   loop 1 invariant currS == nil ==> len(newS) == 0
+//@   loop 1 invariant forall k in [0, len(newS)) :: pStart <= *newS[k].T && *newS[k].T < pEnd
 //@   loop 1 invariant rangeidx >= 0 && fresh(newS) && (currS != nil ==> fresh(currS))
 //@   loop 2 invariant pStart == periodStartS * uint64(timescale) && pEnd == periodEndS * uint64(timescale) && i >= 0
 //@   loop 2 invariant forall k in [0, len(newS)) :: newS[k] != nil && newS[k].T != nil
 //@   loop 2 invariant forall k in [0, len(entries)) :: entries[k] != nil
 //@   loop 2 invariant currS != nil ==> len(newS) > 0 && newS[len(newS)-1] == currS
 //@   loop 2 invariant currS == nil ==> len(newS) == 0
+//@   loop 2 invariant forall k in [0, len(newS)) :: pStart <= *newS[k].T && *newS[k].T < pEnd
 //@   loop 2 invariant fresh(newS) && (currS != nil ==> fresh(currS))
 //@   loop 2 invariant e != nil && d == e.D
 //@   loop 2 decreases e.R - i + 1
+
+// ---------------------------------------------------------------------------
+// C14: status-code half
+
+// findSegStartTime: start time (loop-extended) of segment number nr in rep; numbers below the
+// start number have no segment.
+//@ func findSegStartTime
+//@   requires a != nil && cfg != nil && rep != nil && len(rep.Segments) > 0
+//@   requires nrGEstart: nr >= specStartNr(cfg)
+//@   ensures  result == ((nr - specStartNr(cfg)) / len(rep.Segments)) * (a.LoopDurMS * rep.MediaTimescale / 1000) + int(rep.Segments[(nr-specStartNr(cfg)) - ((nr-specStartNr(cfg))/len(rep.Segments))*len(rep.Segments)].StartTime)
+
+// lastNr: number (counted from 0 at availabilityStartTime) of the newest listed segment, -1 if none.
+//@ func segEntries.lastNr
+//@   requires s.startNr >= -1 && forall k in [0, len(s.entries)) :: s.entries[k] != nil && s.entries[k].R >= 0
+//@   ensures  result >= -1 && (s.startNr >= 0 ==> result >= s.startNr - 1)
+//@   loop 1 invariant nrSegs >= 0 && rangeidx >= 0
+
+// findLastSegNr: the served number of the newest segment that has ended at nowMS; one below the
+// start number when none has.
+//@ func findLastSegNr
+//@   requires a != nil && cfg != nil && rep != nil && a.Reps != nil && a.Reps[rep.ID] != nil && wfRep(a.Reps[rep.ID]) && orderedRep(a.Reps[rep.ID]) && loopExact(a, a.Reps[rep.ID])
+//@   requires a.LoopDurMS > 0 && a.LoopDurMS <= maxLoopDurMS && 0 <= cfg.StartTimeS && cfg.StartTimeS <= maxStartTimeS && cfg.StartTimeS*1000 <= nowMS && nowMS <= maxNowMS
+//@   ensures  result >= specStartNr(cfg) - 1
+//@   allocates
+
+// calcStatusCode: for every configured pattern the index of the request within its cycle is
+// counted from the first segment that STARTS in the cycle: cycle boundaries are taken in the
+// timescale of the track the lookup was made in (the reference track for audio), the last
+// segment before the cycle start is looked up on that same track at the cycle start instant,
+// and the segment straddling the boundary is not counted.
+//@ func calcStatusCode
+//@   wiring
+//@   loop 1 invariant true
+//@   callsite findLastSegNr requires atCycleStart: arg_nowMS == wrapStartS*1000 && arg_rep == segMeta.rep && nrWraps > 0
+//@   callsite findSegStartTime requires firstOfCycle: arg_nr == firstNr && arg_rep == segMeta.rep && arg_nr >= specStartNr(cfg)
+//@   exit 4 requires indexWithinCycle: idx == ss.Rsq && ret0 == ss.Code && idx == int(segMeta.newNr) - firstNr
+//@   exit 4 requires cycleInReferenceTimescale: nrWraps == int(segMeta.newTime) / (ss.Cycle * int(segMeta.timescale)) && wrapStartS == nrWraps * ss.Cycle
+//@   exit 4 requires straddlerNotCounted: firstNr == cond(nrWraps > 0, lastNr + 1, specStartNr(cfg)) + cond(segTime < wrapStartS * int(segMeta.timescale), 1, 0)
